@@ -37,6 +37,8 @@ class Analyzer:
         self.path_base = 0
         self.inline: set = set()  # call sites (node ids) of higher-order calls that must be inlined in the current exploration
         self.codec_sites: dict = {}
+        self.fault = None  # None | "underflow" | "io": fork an exception at every stream operation (thorough tier)
+        interp.stream_fault_hook = self.stream_fault
         interp.call_hook = self.hook
         interp.enter_hook = self.functions.add
 
@@ -72,6 +74,7 @@ class Analyzer:
             term = ("codec", run.fresh_wire(), f.uid)
             self.codec_sites[term] = id(node)
             run.emit("codec", streams[0], f, tuple(others), term, I.site(node))
+            self.maybe_fault(run, "codec", term, I.site(node))
             return Sym(term, "any", opaque_none=True, maybe_none=True, codec=f)
         atom = self.atom_for(f, args, kwargs, node, run)
         if atom is not None:
@@ -79,6 +82,30 @@ class Analyzer:
             return self.emit_atom(atom, f, args, kwargs, run, node)
         self.stats["inlined"] += 1
         return NotImplemented
+
+    # ------------------------------------------------------------------ fault injection (E5, thorough)
+    def fault_exc(self, kind):
+        I = self.I
+        if kind == "underflow":
+            cls = I.module("kio.serial.errors").env.vars["BufferUnderflow"]
+        else:
+            cls = LibClass.get("OSError")
+        return InstV(cls, {"args": ("injected fault",), "__injected__": True})
+
+    def maybe_fault(self, run, what, term, site):
+        """At a stream operation: one path on which the operation raises (short read / I/O error)."""
+        if self.fault is None or self.in_progress:
+            return
+        if self.fault == "underflow" and what not in ("read", "codec"):
+            return
+        if run.decide(("fault", self.fault, what, term), site):
+            run.emit("fault", self.fault, what, site)
+            raise Raised(self.fault_exc(self.fault), site=site)
+
+    def stream_fault(self, run, s, what, term, site):
+        if what == "read" and self.fault == "underflow":
+            return  # a raw read does not raise on a short result; only checked reads do
+        self.maybe_fault(run, what, term, site)
 
     def ckey(self, v):
         if isinstance(v, (int, str, bytes, bool, float)) or v is None:
@@ -187,8 +214,13 @@ class Analyzer:
                     if self.term_used(e[3], effects, value, after=e):
                         detail += ";result-used"
                 self.bump((d, k, s.kind, site, detail))
+                if s.kind == "local" and s.uid < self.path_base and k in ("write", "wvarint", "seek", "read", "xread"):
+                    # a scratch stream that existed before this call (captured by the closure / module level)
+                    self.bump((d, "mutate", "StreamV", site, f"{k};pre-existing"))
             elif k == "stream-other":
                 self.bump((d, "other:" + e[2], e[1].kind, e[-1], ""))
+                if e[1].kind == "local" and e[1].uid < self.path_base:
+                    self.bump((d, "mutate", "StreamV", e[-1], f"{e[2]};pre-existing"))
             elif k == "alloc":
                 self.bump((d, "alloc", "local", e[2], "with-initial-bytes" if e[3] is not None else ""))
             elif k == "codec":
@@ -344,16 +376,19 @@ class Analyzer:
             s, n = bound[atom["stream_param"]], bound[atom["size_param"]]
             term = ("wire", run.fresh_wire(), s.uid)
             run.emit("xread", s, n, term, atom, site)
+            self.maybe_fault(run, "read", term, site)
             return Sym(term, "bytes", len=n, stream=s)
         if atom["kind"] == "varint":
             s = next(v for v in bound.values() if isinstance(v, StreamV))
             term = ("varint", run.fresh_wire(), s.uid)
             run.emit("varint", s, atom, term, site)
+            self.maybe_fault(run, "read", term, site)
             w = 7 * atom["max_bytes"]
             return Sym(term, "int", lo=0, hi=(1 << w) - 1, bv=BV.atom(term, w, False), varint=atom)
         if atom["kind"] == "wvarint":
             s, v = bound[atom["stream_param"]], bound[atom["value_param"]]
             run.emit("wvarint", s, v, atom, site)
+            self.maybe_fault(run, "write", ("wvarint", len(run.effects), s.uid), site)
             return None
         raise Limit(f"unknown atom {atom['kind']}")
 
